@@ -122,7 +122,8 @@ def summarise(interp, b: CompB, body, env, path, node, src_cell):
     for f in premise:
         parent.assume(f)
     parent.add_index(idx)
-    n_pc0 = len(parent.pc)
+    n_c0 = len(parent.conds)
+    n_d0 = len(parent.defs)
 
     def run(p):
         memo = {}
@@ -153,8 +154,10 @@ def summarise(interp, b: CompB, body, env, path, node, src_cell):
 
     normal, raises, breaks = [], [], []
     for (p, (outcome, exc, entries, env_c)) in results:
-        cond = z3.And(*p.pc[n_pc0:]) if len(p.pc) > n_pc0 else z3.BoolVal(True)
-        cond = z3.simplify(cond)
+        cond = z3.And(*p.conds[n_c0:]) if len(p.conds) > n_c0 else z3.BoolVal(True)
+        # definitional facts made inside the body hold for every index that takes this body path
+        for d in p.defs[n_d0:]:
+            path.add_hyp([idx], z3.Implies(z3.And(*(premise + [cond])), d), 'loop-body-def')
         deltas = {}
         for (what, cell) in entries:
             if what[0] == 'extend' and isinstance(cell, SeqV):
@@ -280,7 +283,7 @@ def _extend_set(interp, cell: SetV, b, idx, premise, cases, path):
         for it in items:
             body = z3.Implies(z3.And(*(premise + [cond])), z3.IsMember(ops.to_zstr(it), new))
             path.add_hyp([idx], body, 'set-acc-member')
-    path.assume(z3.IsSubset(old, new))
+    path.define(z3.IsSubset(old, new))
     # backward direction: a member is old or produced by some index (skolem function of the member)
     wit = z3.Function(fresh_name('setwit'), z3.StringSort(), z3.IntSort())
     alts = [z3.IsMember(s, old)]
@@ -437,7 +440,7 @@ def set_comprehension_over_symbolic(interp, node, g, k, it, env, path, level):
     f = z3.Function('py.list_of_set_omega', z3.SetSort(z3.StringSort()), z3.IntSort(), z3.SeqSort(z3.StringSort()))
     omega = z3.Int(fresh_name('omega'))
     base = f(res, omega)
-    path.assume((z3.Length(base) == 0) == (res == z3.EmptySet(z3.StringSort())))
+    path.define((z3.Length(base) == 0) == (res == z3.EmptySet(z3.StringSort())))
     acc = env.lookup('.acc')
     acc.term = interp.seq_of_base(base, TypeDesc('str'), path)
     acc.set_view = res
